@@ -14,9 +14,12 @@ def reaches_data_check(opts):
     return data and not (headers and shape)
 
 
-def nan_aware_image(pf):
+def nan_aware_image(pf, fixed_point_field=None):
     """the on-disk image with min/max tables holding the extrema of the non-NaN
     values (what the binary-data check compares with np.nanmin / np.nanmax);
+    the entries of [fixed_point_field] are printed in fixed-point notation
+    (10 decimals: a trace quantity of order 1e-12 reads 0.0000000000, which the
+    validator's tolerance accepts);
     -> (image, True when no component is entirely NaN)"""
     img = diskimg.image_of(pf)
     ok = True
@@ -32,6 +35,9 @@ def nan_aware_image(pf):
                     ok = False
                     rmin.append('nan')
                     rmax.append('nan')
+                elif c == fixed_point_field:
+                    rmin.append('%.10f' % np.nanmin(col))
+                    rmax.append('%.10f' % np.nanmax(col))
                 else:
                     rmin.append(gen.minmax_token(np.nanmin(col)))
                     rmax.append(gen.minmax_token(np.nanmax(col)))
@@ -89,7 +95,22 @@ def run_case(seed):
         for b in range(len(level.data)):
             bits = level.data[b].view(np.uint64)
             bits[np.isnan(level.data[b])] |= np.uint64(0x0008000000000000)
-    img, data_wf = nan_aware_image(pf)
+    # comparisons against exactly 0.0 need the absolute part of the validator's tolerance: (i) a negative origin with
+    # box faces on the coordinate 0 (-0.3 + 3 * 0.1), (ii) a trace field of order 1e-12 whose table is printed in
+    # fixed-point notation
+    variant = ['plain', 'faces-on-zero', 'trace-field', 'plain'][seed % 4]
+    count(f"variant={variant}")
+    fixed = None
+    if variant == 'faces-on-zero':
+        pf.geo_low = [-0.3] * pf.ndims
+        pf.dx0 = [0.1] * pf.ndims
+    elif variant == 'trace-field':
+        fixed = rng.randrange(len(pf.fields))
+        for level in pf.levels:
+            for b in range(len(level.data)):
+                col = level.data[b][..., fixed]
+                level.data[b][..., fixed] = np.where(np.isfinite(col), np.tanh(col * 1e-3) * 1e-12, col)
+    img, data_wf = nan_aware_image(pf, fixed)
     path = core.scratch_dir(f"c03_{seed}")
     diskimg.write_image(img, path)
     img_sx = diskimg.image_sx(img)
